@@ -403,9 +403,16 @@ pub enum Payload {
     IoTimedOut,
     /// a string-backed error whose text says "temporary failure, retry"
     TextRetry,
+    /// the user's error is one of the crate's own *status* values, boxed (a derivative layered on
+    /// another solver that hands its status on): `IVPStatus::<IVPError>::Done`
+    StatusDone,
+    /// `IVPStatus::<IVPError>::Redo`
+    StatusRedo,
+    /// `IVPStatus::Failure(IVPError::UserError(Box<SimFault>))`
+    StatusFailure,
 }
 
-pub const PAYLOADS: [Payload; 11] = [
+pub const PAYLOADS: [Payload; 14] = [
     Payload::Typed,
     Payload::Text,
     Payload::Io,
@@ -417,6 +424,9 @@ pub const PAYLOADS: [Payload; 11] = [
     Payload::IoWouldBlock,
     Payload::IoTimedOut,
     Payload::TextRetry,
+    Payload::StatusDone,
+    Payload::StatusRedo,
+    Payload::StatusFailure,
 ];
 
 impl Payload {
@@ -433,6 +443,9 @@ impl Payload {
             Payload::IoWouldBlock => "io_would_block",
             Payload::IoTimedOut => "io_timed_out",
             Payload::TextRetry => "text_retry",
+            Payload::StatusDone => "boxed_status_done",
+            Payload::StatusRedo => "boxed_status_redo",
+            Payload::StatusFailure => "boxed_status_failure",
         }
     }
     pub fn from_name(s: &str) -> Option<Payload> {
